@@ -34,6 +34,11 @@ type c07Case struct {
 	Chop    int    `json:",omitempty"` // the body is delivered at most Chop bytes per Read (0 = no limit)
 	Origin  string `json:",omitempty"` // how the body was produced (for the histogram)
 	// side server-early-header: NFrames frames with payloads of FrameSize bytes, through a real server of form Carrier
+	// RTErr (client sides): no reply at all - the round trip itself fails with this error ("eof": a bare io.EOF, what
+	// net/http reports when the peer closes the connection without answering; "unexpected-eof"; "reset")
+	RTErr string `json:",omitempty"`
+	// Announced (side server-unary): the Content-Length the request announces; Body is what actually arrives
+	Announced int64  `json:",omitempty"`
 	NFrames   int    `json:",omitempty"`
 	FrameSize int    `json:",omitempty"`
 	Carrier   string `json:",omitempty"`
@@ -85,6 +90,14 @@ func c07Client(c *c07Case) *c07Obs {
 	obs := &c07Obs{}
 	ch := &httpgrpc.Channel{BaseURL: baseURL, Transport: rtFunc(func(r *http.Request) (*http.Response, error) {
 		go io.Copy(io.Discard, r.Body)
+		switch c.RTErr {
+		case "eof":
+			return nil, io.EOF
+		case "unexpected-eof":
+			return nil, io.ErrUnexpectedEOF
+		case "reset":
+			return nil, errConnReset
+		}
 		return &http.Response{StatusCode: 200, Status: "200 OK", Proto: "HTTP/1.1", ProtoMajor: 1, ProtoMinor: 1,
 			Header: http.Header{"Content-Type": {httpgrpc.StreamRpcContentType_V1}}, Body: bodyReader(c.Body, c.Abrupt, c.Chop), Request: r}, nil
 	})}
@@ -301,7 +314,69 @@ func propC07EarlyHeader(c c07Case) *Outcome {
 	return o
 }
 
+// propC07ServerUnary: the request body of a unary method. Its length is what the client announces (Content-Length),
+// which nothing has verified when the handler starts reading: memory is spent on bytes that arrived, not on the
+// announcement; a body that falls short of it is an incomplete request.
+func propC07ServerUnary(c c07Case) *Outcome {
+	o := &Outcome{NonTrivial: c.Announced != int64(len(c.Body))}
+	o.class("side=%s", c.Side)
+	o.class("announced-vs-sent=%s", map[bool]string{true: "equal", false: "more-announced"}[c.Announced == int64(len(c.Body))])
+	var mu sync.Mutex
+	var got [][]byte
+	svc := &Service{Unary: func(ctx context.Context, req *pb.Message) (*pb.Message, error) {
+		mu.Lock()
+		got = append(got, detBytes(req))
+		mu.Unlock()
+		return &pb.Message{}, nil
+	}}
+	h := newHTTPHandlerBase(c.Carrier, "", newServiceDesc(), svc)
+	run := func() (alloc uint64, panicked string, status int) {
+		req := httptest.NewRequest("POST", "http://verif.test"+mUnary, bodyReader(c.Body, c.Announced != int64(len(c.Body)), c.Chop))
+		req.Header.Set("Content-Type", httpgrpc.UnaryRpcContentType_V1)
+		req.ContentLength = c.Announced
+		w := httptest.NewRecorder()
+		var ms1, ms2 runtime.MemStats
+		runtime.ReadMemStats(&ms1)
+		func() {
+			defer func() {
+				if r := recover(); r != nil {
+					panicked = fmt.Sprintf("%v\n%s", r, debug.Stack())
+				}
+			}()
+			h.ServeHTTP(w, req)
+		}()
+		runtime.ReadMemStats(&ms2)
+		return ms2.TotalAlloc - ms1.TotalAlloc, panicked, w.Code
+	}
+	c07Serial.Lock()
+	alloc, panicked, status := run()
+	bound := uint64(wireMaxMessage) + 8*uint64(len(c.Body)) + c07AllocSlack
+	for i := 0; i < 4 && panicked == "" && alloc > bound; i++ {
+		runtime.GC()
+		if a, p, _ := run(); p == "" && a < alloc {
+			alloc = a
+		}
+	}
+	c07Serial.Unlock()
+	mu.Lock()
+	defer mu.Unlock()
+	o.Observed = map[string]interface{}{"announced": c.Announced, "sent": len(c.Body), "alloc": alloc, "http": status, "handler_runs": len(got)}
+	if panicked != "" {
+		return o.failf("server-unary (%s): a request announcing %d bytes and delivering %d made the handler panic: %s", c.Carrier, c.Announced, len(c.Body), firstLine(panicked))
+	}
+	if alloc > bound {
+		return o.failf("server-unary (%s): a request announcing %d bytes and delivering %d cost %d bytes of allocation (bound %d)", c.Carrier, c.Announced, len(c.Body), alloc, bound)
+	}
+	if c.Announced != int64(len(c.Body)) && len(got) > 0 {
+		return o.failf("server-unary (%s): the request announced %d bytes, %d arrived, yet the handler ran", c.Carrier, c.Announced, len(c.Body))
+	}
+	return o
+}
+
 func propC07(c c07Case) *Outcome {
+	if c.Side == "server-unary" {
+		return propC07ServerUnary(c)
+	}
 	if c.Side == "client-unary" {
 		return propC07Unary(c)
 	}
@@ -387,6 +462,14 @@ func propC07(c c07Case) *Outcome {
 			}
 		} else if cleanEnd && allValid {
 			return o.failf("server: well-formed request body of %d frames rejected: %s", len(ref.Frames), obs.Final.Raw)
+		}
+		return o
+	}
+	if c.RTErr != "" {
+		o.class("round-trip-fails=%s", c.RTErr)
+		o.NonTrivial = true
+		if obs.Final.EOF || obs.Final.Nil || len(obs.Msgs) > 0 {
+			return o.failf("%s: the round trip failed (%s), no reply ever arrived, yet the call ended with %d messages and %s", c.Side, c.RTErr, len(obs.Msgs), obs.Final.Raw)
 		}
 		return o
 	}
@@ -503,6 +586,22 @@ func genC07(t *rapid.T) c07Case {
 		}
 		return c
 	}
+	if rapid.IntRange(0, 24).Draw(t, "serverunary") == 0 {
+		c = c07Case{Side: "server-unary", Carrier: rapid.SampledFrom([]string{cHTTP, cHTTPMux, cHTTPPer}).Draw(t, "sucarrier")}
+		c.Body = mustMarshal(genMsg(t, "sumsg", 600).Build())
+		c.Body = c.Body[:rapid.IntRange(0, len(c.Body)).Draw(t, "susent")]
+		c.Announced = int64(len(c.Body))
+		if rapid.IntRange(0, 3).Draw(t, "suhonest") > 0 {
+			c.Announced = rapid.SampledFrom([]int64{int64(len(c.Body)) + 1, int64(len(c.Body)) + 1000, 100 << 20, 400000000, 1 << 31, 1 << 62, 1<<63 - 1}).Draw(t, "suannounced")
+		}
+		// (no value in between: a terabyte-sized make() is a fatal out-of-memory error of the runtime, which no test process survives)
+		c.Chop = rapid.SampledFrom([]int{0, 0, 1, 7}).Draw(t, "suchop")
+		return c
+	}
+	if (c.Side == "client-ss" || c.Side == "client-cs") && rapid.IntRange(0, 19).Draw(t, "rterr") == 0 {
+		c.RTErr = rapid.SampledFrom([]string{"eof", "eof", "unexpected-eof", "reset"}).Draw(t, "rterrkind")
+		return c
+	}
 	if c.Side == "client-unary" {
 		c.Chop = rapid.SampledFrom([]int{0, 0, 0, 1, 2, 3, 5, 7}).Draw(t, "chop")
 		full := mustMarshal(genMsg(t, "umsg", 600).Build())
@@ -589,7 +688,7 @@ func recordReplyBody(s *Script) []byte {
 
 func init() { registerReplay("C07", propC07) }
 
-const c07Rule = "bodies fed to the client stream decoder (server-streaming and single-response) and to the unary client (whole body = the message; cut at a field boundary or anywhere, ending with the transport's io.ErrUnexpectedEOF or cleanly) through a replaying RoundTripper, request streams of 0.3 .. 1 MiB through a real net/http server to a handler that sends its headers before it receives and to the server stream decoder through httptest (a bidi method and a method that takes exactly one request): rapid byte strings, hostile 4-byte prefixes (0, -1, MinInt32, MaxInt32, limit, limit+-1), valid encodings of generated message lists + trailer mutated by truncation / bit flip / spliced hostile prefix / trailing garbage / missing trailer, " +
+const c07Rule = "bodies fed to the client stream decoder (server-streaming and single-response) and to the unary client (whole body = the message; cut at a field boundary or anywhere, ending with the transport's io.ErrUnexpectedEOF or cleanly) through a replaying RoundTripper (which may also fail the round trip outright: bare io.EOF, unexpected EOF, reset), unary requests announcing more than they deliver (up to 2^63-1), request streams of 0.3 .. 1 MiB through a real net/http server to a handler that sends its headers before it receives and to the server stream decoder through httptest (a bidi method and a method that takes exactly one request): rapid byte strings, hostile 4-byte prefixes (0, -1, MinInt32, MaxInt32, limit, limit+-1), valid encodings of generated message lists + trailer mutated by truncation / bit flip / spliced hostile prefix / trailing garbage / missing trailer, " +
 	"and every truncation offset of 8 recorded real replies, each ending cleanly (io.EOF) and abruptly (io.ErrUnexpectedEOF), delivered whole or at most 1..7 bytes per Read; oracle = independent reference decoder (delivered messages are an intact prefix of the reference frames; success iff the reference sees a complete OK reply; reference error => SUT error), no panic, TotalAlloc delta <= 100 MiB limit + 8*len(body) + 6 MiB; " +
 	"non-trivial = body with >=1 complete frame that is not a complete valid OK stream, or an oversized prefix, or a cut inside a frame; distinct by case hash"
 
